@@ -3,7 +3,8 @@
 use crate::CaseResult;
 use rsdd::builder::bdd::{BddBuilder, RobddBuilder};
 use rsdd::builder::cache::AllIteTable;
-use rsdd::builder::sdd::CompressionSddBuilder;
+use rsdd::builder::sdd::{CompressionSddBuilder, SddBuilder, SemanticSddBuilder};
+use rsdd::constants::primes;
 use rsdd::builder::BottomUpBuilder;
 use rsdd::plan::BottomUpPlan;
 use rsdd::repr::{BddPtr, Cnf, DTree, Literal, LogicalExpr, PartialModel, SddPtr, VTree, VarLabel, VarOrder};
@@ -39,17 +40,25 @@ fn vtree(v: &Value) -> VTree {
 fn vleaves(v: &Value, out: &mut Vec<u64>) { match v.as_array() { Some(a) => { vleaves(&a[0], out); vleaves(&a[1], out); } None => out.push(v.as_u64().unwrap_or(0)) } }
 
 fn run_sdd(c: &Value) -> CaseResult {
+    let b = CompressionSddBuilder::new(vtree(&c["vtree"]));
+    run_sdd_on("compression", &b, c)?;
+    let b2 = SemanticSddBuilder::<{ primes::U64_LARGEST }>::new(vtree(&c["vtree"]));
+    run_sdd_on("semantic", &b2, c)
+}
+
+fn run_sdd_on<'a, B: SddBuilder<'a>>(which: &str, b: &'a B, c: &Value) -> CaseResult {
     let mut ls = vec![]; vleaves(&c["vtree"], &mut ls);
     let nv = ls.len();
-    let b = CompressionSddBuilder::new(vtree(&c["vtree"]));
     let asg = |m: usize| -> Vec<bool> { (0..nv).map(|i| (m >> i) & 1 == 1).collect() };
-    if !c["expr"].is_null() {
+    // the semantic-hash SDD builder leaves `ite` unimplemented (explicit todo!() in its ite cache): expressions and plans
+    // are compiled with the compression builder only
+    if !c["expr"].is_null() && which == "compression" {
         let d = b.compile_logical_expr(&expr(&c["expr"]));
         let d2 = b.compile_plan(&plan(&c["expr"]));
         for m in 0..(1usize << nv) {
             let a = asg(m);
-            if seval(d, &a) != ev(&c["expr"], &a) { return Err(format!("SDD compile_logical_expr: diagram is {} on {:?}, the expression is {}", seval(d, &a), a, ev(&c["expr"], &a))); }
-            if seval(d2, &a) != ev(&c["expr"], &a) { return Err(format!("SDD compile_plan: diagram is {} on {:?}, the plan means {}", seval(d2, &a), a, ev(&c["expr"], &a))); }
+            if seval(d, &a) != ev(&c["expr"], &a) { return Err(format!("{which} SDD compile_logical_expr: diagram is {} on {:?}, the expression is {}", seval(d, &a), a, ev(&c["expr"], &a))); }
+            if seval(d2, &a) != ev(&c["expr"], &a) { return Err(format!("{which} SDD compile_plan: diagram is {} on {:?}, the plan means {}", seval(d2, &a), a, ev(&c["expr"], &a))); }
         }
     }
     if !c["cnf"].is_null() {
@@ -62,7 +71,7 @@ fn run_sdd(c: &Value) -> CaseResult {
         for m in 0..(1usize << nv) {
             let a = asg(m);
             let want = cls.iter().all(|cl| cl.iter().any(|l| a[l.label().value() as usize] == l.polarity()));
-            if seval(d, &a) != want { return Err(format!("SDD compile_cnf: diagram is {} on {:?}, the CNF is {}", seval(d, &a), a, want)); }
+            if seval(d, &a) != want { return Err(format!("{which} SDD compile_cnf: diagram is {} on {:?}, the CNF is {}", seval(d, &a), a, want)); }
         }
     }
     Ok(())
